@@ -135,6 +135,11 @@ def _converter_contract(ap, ftype):
             surfaces[i] = {'type': 'standard', 'is_stop': i == 2, 'conic': K[i], 'material': glass if i == 1 else 'air',
                            'radius': R[i], 'thickness': T[i]}
         surfaces[3]['type'] = 'even_asphere'
+        # the reader hands over the image surface block too (since fix e253808; before it, the last SURF block of a file was dropped
+        # and the converter appended a default plane): its radius and conic are part of the written prescription
+        R.append(c.real('R_image', -300, -50))
+        K.append(c.real('K_image', -2, 1))
+        surfaces[4] = {'type': 'standard', 'is_stop': False, 'conic': K[4], 'material': 'air', 'radius': R[4], 'thickness': 0.0}
         for i in range(8):
             surfaces[3]['param_%d' % i] = co[i]
         apv = c.real('ap_value', 0.05, 0.3, positive=True) if ap == 'objectNA' else c.real('ap_value', 1, 8, positive=True)
@@ -151,6 +156,8 @@ def _converter_contract(ap, ftype):
             if i >= 1:
                 c.ensure_eq('C20.converter.thickness', c.val(sg.get_thickness(i)), T[i])
                 c.ensure_eq('C20.converter.conic', c.val(sg.conic[i]), K[i])
+        c.ensure_eq('C20.converter.image_surface_radius_and_conic', c.val(sg.radii[4]), R[4])
+        c.ensure_eq('C20.converter.image_surface_radius_and_conic', c.val(sg.conic[4]), K[4])
         if ftype != 'angle':
             c.ensure_eq('C20.converter.thickness', c.val(sg.get_thickness(0)), T[0])
         else:
@@ -207,6 +214,11 @@ def make_prescription(rng):
                 s['type'] = 'EVENASPH'
                 s['parm'] = [rng.uniform(-1e-5, 1e-5) * 10 ** (-2 * k) for k in range(8)]
         surfs.append(s)
+    # the image surface block carries a prescription of its own (curved image surfaces)
+    if rng.random() < 0.5:
+        surfs[-1]['curv'] = rng.uniform(-0.02, 0.02)
+        if rng.random() < 0.5:
+            surfs[-1]['conic'] = rng.uniform(-2, 1)
     ap = rng.choice(['ENPD', 'FNUM', 'OBNA'] if finite else ['ENPD', 'FNUM'])
     apv = {'ENPD': rng.uniform(1, 20), 'FNUM': rng.uniform(1.5, 12), 'OBNA': rng.uniform(0.02, 0.3)}[ap]
     ftype = rng.choice([0, 1]) if finite else 0
@@ -285,6 +297,11 @@ def check_lens(lens, p, note):
                 nd, vd = s['glass'][1]
                 note('C20.file.media', type(m).__name__ == 'AbbeMaterial' and m.index == nd and m.abbe == vd,
                      'surface %d: model glass (%r, %r) vs file (%r, %r)' % (i, getattr(m, 'index', None), getattr(m, 'abbe', None), nd, vd))
+    img, gi = p['surfs'][-1], sg.surfaces[-1].geometry
+    want_Ri = math.inf if img['curv'] == 0 else 1 / img['curv']
+    note('C20.file.image_surface_radius_and_conic', float(np.ravel(gi.radius)[0]) == want_Ri and
+         (img['curv'] == 0 or float(getattr(gi, 'k', 0.0)) == (img['conic'] or 0.0)), 'image surface: radius %r conic %r vs file %r %r'
+         % (gi.radius, getattr(gi, 'k', None), want_Ri, img['conic']))
     ap_name = {'ENPD': 'EPD', 'FNUM': 'imageFNO', 'OBNA': 'objectNA'}[p['ap']]
     note('C20.file.aperture', lens.aperture.ap_type == ap_name and lens.aperture.value == p['apv'], '%s %r' % (lens.aperture.ap_type, lens.aperture.value))
     note('C20.file.field_type', lens.field_type == ('angle' if p['ftype'] == 0 else 'object_height'), str(lens.field_type))
